@@ -1,2 +1,24 @@
-/- C01 — property theorems (being extended); the writer model these will be about: -/
-import E57.Model.Writer
+/-
+C01 — raw points survive write → read.
+
+Writer half (proved in `E57/Proofs/LayoutWrite.lean`):
+
+ * `writer_layout`        whenever `PcW.new`, the `add_point`s and `finalize` return `ok` on a
+   well-formed page writer whose cursor is 4-aligned, the finalized section is laid out as
+   `SectionLayout` says: 32-byte header (section length = 32 + Σ packet lengths, data offset =
+   physical offset right behind the header, also when the header straddles a page boundary),
+   followed by exactly the packets the SPECIFICATION encoder `Spec.encodeSection` emits for the
+   added points (value − minimum or float bits, LSB first, contiguous across points/bytes/packets),
+   bytes before the section untouched, cursor behind it, `LegalPackets`.
+ * `writer_layout_legal`  the same without assuming success of `add_point`/`finalize`: for every
+   valid prototype and all fitting points the calls do succeed (`session_ok`).
+ * `stream_refines`, `packet_bytes`, `new_dataOffset`, `finalize_lay`, `encodeSection_cv`.
+ * `empty_section_deviates` / `no_points_no_packets`: a section without any data packet stores the
+   data offset `l2p (s+32)` where the specification encoder stores 0 — a deviation without effect
+   on reading (there is nothing to read), kept visible.
+
+Reader half: `E57/Props/C03.lean` (`C03_reader_decodes_any_layout`).
+Composition (writer output is read back as the points added): `E57/Proofs/RoundTrip.lean` when present.
+-/
+import E57.Proofs.LayoutWrite
+import E57.Proofs.LayoutRead
